@@ -177,6 +177,16 @@ CHECKS = {
         "real code and is not claimed.",
    technique="TLA+ models of the client loop and block hasher checked by TLC; behaviours replayed on the real client, handler and hashers",
    engine="transport"),
+ "C16": dict(cat="model_checking", design="§4 C16",
+   text="spec/Cms.tla enumerates third-party SignedData shapes (15552) x the operations relic performs on parsed values (RoundTrip, "
+        "Embed, EmbedDetach, Resign) and records which parts lib/pkcs7 captures raw and which it re-encodes; SignedPartsSame, "
+        "MandatoryAttrsOnce and RefuseOnlyWhenJustified are checked by TLC (5 negative controls). Binding: each behaviour is concretised "
+        "by a harness TLV encoder, run through the real Unmarshal/Marshal/Detach, ParseResponse/TimestampAndMarshal and catalog signer, "
+        "and taken apart by a harness TLV walker; each part must be what the model predicts; signatures are re-verified (own code, openssl).",
+   note="Encode/decode fidelity: the model is a shape x operation enumerator with a preservation rule table. Legacy Microsoft "
+        "timestamp responses and subjectKeyIdentifier signer infos are not generated.",
+   technique="TLA+ shape/operation enumeration by TLC; behaviours replayed on the real pkcs7/pkcs9 code with an independent TLV walker and openssl",
+   engine="cms"),
 }
 
 NOT_YET = {}
